@@ -5,7 +5,7 @@ import os
 import vlib
 import p_machine
 
-PCFG = """CONSTANTS N = %d Me = %d MaxVer = %d
+PCFG = """CONSTANTS N = %d Me = %d MaxVer = %d WithNarrow = FALSE
 SPECIFICATION PSpec
 INVARIANTS CrashConsistent RestoredSigsSound PCurrentSigned PStagingSigsSound
 CHECK_DEADLOCK FALSE
@@ -33,7 +33,7 @@ def run(prop, tier, seed, scratch, t0):
     def one(cfg):
         n, me, mv, store, denv = cfg
         tag = "N%dMe%dV%d%s" % (n, me, mv, store)
-        r = vlib.tlc(scratch, "Machine", p_machine.CFG % (n, me, mv), name="MachineP_" + tag, workers=1,
+        r = vlib.tlc(scratch, "Machine", (p_machine.CFG % (n, me, mv)).replace("WithNarrow = TRUE", "WithNarrow = FALSE"), name="MachineP_" + tag, workers=1,
                      extra=["-dump", "dot,actionlabels", "graph.dot"], timeout=3000)
         if not r["ok"]:
             raise vlib.Inconclusive("TLC reports %s in Machine.tla itself" % r["violated"])
